@@ -19,7 +19,9 @@ LEVEL = "exploration"
 TECHNIQUE = "nonce-tagged taint tracking through generated templates + delta-debugged leak classification"
 RULE = ("typed random template IR: data strings and string literals whose every HTML metacharacter is "
         "surrounded by a unique 5-digit nonce, pushed through every built-in filter (data-controlled "
-        "arguments), + ~ % *, str/Markup methods, tests, macros (positional/default/kw/varargs/kwargs), "
+        "arguments; xmlattr also with data-controlled and nonce'd literal attribute NAMES that pass the documented "
+        "key validation - metacharacters < \" ' & - as dict-display keys, data dicts, dict(**d) / dict(d) / "
+        "dict(d|items) / dict(d.items()) calls, optionally through {% set %}), + ~ % *, str/Markup methods, tests, macros (positional/default/kw/varargs/kwargs), "
         "call blocks and caller arguments, set blocks, filter blocks, loops (recursive, loop.cycle), "
         "include, import (macro and variable), blocks, self.block(), extends/super, joiner, namespace; "
         "autoescape static True, select_autoescape by DictLoader template name, or {% autoescape true|flag %} "
@@ -35,7 +37,8 @@ ASSUMPTIONS = [
     "a raw < > ' \" counts as a leak only when it sits between two copies of one datum's nonce (every "
     "metacharacter of every datum/literal is generated that way), which proves it is the datum's own character; "
     "other raw metacharacters - documented urlize anchors and xmlattr name=\"...\" pairs (removed by a strict "
-    "recogniser first), tojson string quotes, repr quotes of pprint/list output inside filter blocks - are "
+    "recogniser first: a pair is removed only when its name is one of the fixed keys or the HTML-escaped form of "
+    "a key string the case feeds to xmlattr, i.e. the name itself is free of raw metacharacters), tojson string quotes, repr quotes of pprint/list output inside filter blocks - are "
     "counted (raw_metachars_not_data) but are not data or literal characters",
     "in runtime mode every {{ }} is lexically inside an {% autoescape %} region of its own template file "
     "(imported macro bodies carry their own region); data never contains Markup objects",
@@ -49,7 +52,7 @@ FLOORS = {
               "counters": {"rendered_ok": 600, "nonces_arrived_escaped": 3000, "mode.static": 150,
                            "mode.selector": 60, "mode.runtime": 200, "control_leaks_detected": 16,
                            "filter.indent": 40, "filter.join": 60, "filter.replace": 30, "filter.urlize": 15,
-                           "filter.xmlattr": 15, "filter.tojson": 15, "filter.truncate": 10, "filter.wordwrap": 10,
+                           "filter.xmlattr": 15, "xmlattr_names_arrived_escaped": 8, "filter.tojson": 15, "filter.truncate": 10, "filter.wordwrap": 10,
                            "filter.format": 10, "filter.striptags": 8, "construct.cap.macro": 20,
                            "construct.cap.setblock": 20, "construct.callblock": 40, "construct.include": 15,
                            "construct.cap.import_macro": 10, "construct.xblock": 15}},
@@ -57,7 +60,7 @@ FLOORS = {
                  "counters": {"rendered_ok": 30000, "nonces_arrived_escaped": 150000, "mode.static": 7000,
                               "mode.selector": 3500, "mode.runtime": 10000, "control_leaks_detected": 16,
                               "filter.indent": 800, "filter.join": 1200, "filter.replace": 600, "filter.urlize": 300,
-                              "filter.xmlattr": 300, "filter.tojson": 300, "filter.truncate": 200,
+                              "filter.xmlattr": 300, "xmlattr_names_arrived_escaped": 1000, "filter.tojson": 300, "filter.truncate": 200,
                               "filter.wordwrap": 200, "filter.format": 200, "filter.striptags": 150,
                               "construct.cap.macro": 400, "construct.cap.setblock": 400,
                               "construct.callblock": 800, "construct.include": 300,
@@ -122,7 +125,7 @@ def _strings(v):
     if isinstance(v, list):
         return [s for x in v for s in _strings(x)]
     if isinstance(v, dict):
-        return [s for x in v.values() for s in _strings(x)]
+        return [s for x in v.values() for s in _strings(x)] + [k for k in v if isinstance(k, str)]
     return []
 
 
@@ -134,7 +137,8 @@ def evaluate(case):
     out, exc, files = execute(case)
     if exc is not None:
         return None, exc, files
-    cleaned = O.clean(out, IR.uses(case, "urlize"), IR.uses(case, "xmlattr"), G.XML_KEYS)
+    cleaned = O.clean(out, IR.uses(case, "urlize"), IR.uses(case, "xmlattr"), G.XML_KEYS,
+                      [k for _, k in IR.xmlattr_key_strings(case)])
     lk, other = O.leaks(cleaned, all_nonces(case))
     STATS["other"] = other
     return lk, out, files
@@ -420,8 +424,12 @@ def describe_step(node, step):
         return f"op:{node[1]}/" + ("left" if i == 2 else "right")
     if t == "m":
         return f"method:{node[1]}/" + ("self" if i == 2 else f"arg{step[1]}")
+    if t == "dict" and step[-1] == 0:
+        return "dict-key"
     if t in ("list", "tuple", "dict"):
         return t
+    if t == "dictof":
+        return "dict-call:" + node[1]
     if t == "cond":
         return "conditional-expression"
     if t == "test":
@@ -489,6 +497,8 @@ def mechanism_key(case, target):
             i += 1
     if node[0] == "lit":
         parts.append("literal")
+    if node[0] == "D" and any(isinstance(k, str) and target in k for k in case["data"].get(node[1], {})):
+        parts.append("data-dict-key")
     return collapse_key(case, parts)
 
 
@@ -522,7 +532,7 @@ def neutralise(case, target):
         if isinstance(v, list):
             return [fixv(x) for x in v]
         if isinstance(v, dict):
-            return {k: fixv(x) for k, x in v.items()}
+            return {(fix(k) if isinstance(k, str) else k): fixv(x) for k, x in v.items()}
         return v
 
     def fixn(n):
@@ -551,6 +561,12 @@ def analyse(ctx, case, report=True):
         ctx.count(f"runtime.{case.get('flag')}.{case.get('layout')}")
     arrived = len(set(re.findall(r"(9[0-8]{4})&(?:lt|gt|#34|#39);", out)))
     ctx.count("nonces_arrived_escaped", arrived)
+    for form, k in IR.xmlattr_key_strings(case):
+        if form == "fixed":
+            continue
+        ctx.count("xmlattr_key." + form)
+        if O.key_passes_validation(k) and (O.escaped_form(k) + '="') in out:
+            ctx.count("xmlattr_names_arrived_escaped")
     if arrived:
         ctx.dist(sorted(files.items()))
     nfound = 0
@@ -598,6 +614,8 @@ def count_constructs(ctx, case, seen):
                 seen.add(n[1])
                 ctx.count("filter." + n[1])
                 ctx.count("construct.fblock")
+            elif t == "dictof":
+                ctx.count("construct.dictof." + n[1])
             elif t not in ("d", "lit", "klit", "num", "bool", "none", "hole", "var", "out", "text", "L", "D", "LD"):
                 ctx.count("construct." + (t if t != "m" else "method"))
 
